@@ -476,6 +476,11 @@ func (s *Server) handleSessionMessage(addr *net.UDPAddr, msg []byte) error {
 		return nil
 	}
 
+	if PlaintextLen(len(msg)) < 0 {
+		// Too short to hold a counter and a tag: not a transport message.
+		return ErrBufUnderflow
+	}
+
 	// TODO(dadrian): Can we avoid this allocation?
 	plaintext := make([]byte, PlaintextLen(len(msg)))
 	_, mt, err := ss.readPacketLocked(plaintext, msg, ss.readKey)
